@@ -20,6 +20,9 @@ pub struct Sample
     pub d: Option<u64>,
     /// a second `take()` of a system event succeeded
     pub second_take: bool,
+    /// the accessors of one reader disagree with each other (`is_empty` / `try_read` / `read` / `entity` / `get_entity` / `get`)
+    #[serde(default)]
+    pub inconsistent: bool,
 }
 
 impl Sample
